@@ -10,7 +10,9 @@ import (
 	"encoding/json"
 	"flag"
 	"fmt"
+	"github.com/massnetorg/mass-core/logging"
 	"math/rand"
+	"os"
 	"reflect"
 	"strings"
 	"time"
@@ -497,5 +499,8 @@ func run(sc vh.Scenario, dir string, rec *vh.Rec) {
 
 func main() {
 	flag.Parse()
+	// as a node does at start-up (the library's lazy initialisation on a first log call is not safe when two goroutines
+	// log for the first time at once - two connection ends timing out in the same tick did)
+	logging.Init(os.TempDir(), "codecdrv", "fatal", 1, true)
 	vh.Main(run)
 }
